@@ -29,6 +29,9 @@ pub struct Config {
     pub ids: bool,
     pub setpgid: bool,
     pub via_path: bool,
+    /// parent's own fds 0..2 closed during the launch (bit mask); only with all streams inherited
+    #[serde(default)]
+    pub closed_std: u8,
 }
 
 #[derive(Clone, Copy, Debug, PartialEq, Serialize, Deserialize)]
@@ -167,8 +170,19 @@ fn launch(ctx: &Ctx, case: &LaunchCase) -> Run {
     if let Fault::Inject(kind, k, errno, in_child) = &case.fault {
         ip::fault_arm(*kind, *k, *errno, *in_child);
     }
+    let closed = if case.cfg.stdin == SK::None && case.cfg.stdout == SK::None && case.cfg.stderr == SK::None { case.cfg.closed_std & 7 } else { 0 };
+    let before = if closed != 0 {
+        let _g = CloseGuard::new(closed);
+        fd_snapshot()
+    } else {
+        before
+    };
     ip::COUNTING.store(true, SeqCst);
-    let res = Popen::create(&argv, cfg);
+    let (res, after_closed) = {
+        let _g = CloseGuard::new(closed);
+        let r = Popen::create(&argv, cfg);
+        (r, fd_snapshot())
+    };
     ip::COUNTING.store(false, SeqCst);
     let parent_calls: Vec<u32> = ip::PARENT_CALLS.iter().map(|c| c.load(SeqCst)).collect();
     let fault_hit_parent = ip::FAULT_HIT.load(SeqCst) > 0;
@@ -189,7 +203,7 @@ fn launch(ctx: &Ctx, case: &LaunchCase) -> Run {
     let mut report = None;
     match popen {
         None => {
-            let after = fd_snapshot();
+            let after = if closed != 0 { after_closed.clone() } else { fd_snapshot() };
             let mut b2 = before.clone();
             for fd in &cfg_fds {
                 b2.remove(fd);
@@ -302,7 +316,15 @@ pub fn config_strategy() -> impl Strategy<Value = Config> {
     let skm = prop_oneof![3 => Just(SK::None), 3 => Just(SK::Pipe), 3 => Just(SK::File), 1 => Just(SK::Merge)];
     (sk, skm.clone(), skm, any::<bool>(), any::<bool>(), any::<bool>(), any::<bool>(), any::<bool>()).prop_map(|(stdin, stdout, stderr, detached, cwd, ids, setpgid, via_path)| {
         let stderr = if stdout == SK::Merge && stderr == SK::Merge { SK::Pipe } else { stderr };
-        Config { stdin, stdout, stderr, detached, cwd, ids, setpgid, via_path }
+        Config { stdin, stdout, stderr, detached, cwd, ids, setpgid, via_path, closed_std: 0 }
+    })
+    .prop_flat_map(|c| {
+        let all_none = c.stdin == SK::None && c.stdout == SK::None && c.stderr == SK::None;
+        (Just(c), if all_none { (0u8..8).boxed() } else { Just(0u8).boxed() })
+    })
+    .prop_map(|(mut c, m)| {
+        c.closed_std = m;
+        c
     })
 }
 
@@ -374,7 +396,8 @@ fn all_configs() -> Vec<Config> {
                 }
                 for detached in [false, true] {
                     for opts in 0..8u8 {
-                        v.push(Config { stdin, stdout, stderr, detached, cwd: opts & 1 != 0, ids: opts & 2 != 0, setpgid: opts & 4 != 0, via_path: (opts ^ (opts >> 1)) & 1 != 0 });
+                        let all_none = stdin == SK::None && stdout == SK::None && stderr == SK::None;
+                        v.push(Config { stdin, stdout, stderr, detached, cwd: opts & 1 != 0, ids: opts & 2 != 0, setpgid: opts & 4 != 0, via_path: (opts ^ (opts >> 1)) & 1 != 0, closed_std: if all_none { opts } else { 0 } });
                     }
                 }
             }
